@@ -7,6 +7,7 @@ option combinations, user argument lists (spaces, quotes, non-UTF-8 bytes, leadi
 child result encoding, and compared with these decisions.
 -/
 import CambrianModel.Model.Process
+import CambrianModel.Model.ChildSchema
 import CambrianModel.Lemmas.LaunchLemmas
 namespace Cambrian.Props
 open Cambrian Cambrian.Proc
@@ -93,5 +94,95 @@ theorem C16_criteria_budget (cs : List Launch.Crit) (c : Launch.Compiled) (h : L
 
 example : Launch.compile [.numEval 5, .signal, .numEval 7] = none ∧
           Launch.compile [.signal, .numEval 5] = some { maxEval := some 5, onSignal := true } := by decide
+
+/-! ### the child result schema over the JSON tree (`Proc.childOutOf`, over the extracted fact "objects only") -/
+
+/-- the schema as the source has it now -/
+def childOutNow (cast : Int → F64) (d : Option J) : ChildOut := childOutOf Generated.childResultObjectsOnly cast d
+
+/-- A printed document is an accepted-or-rejected result exactly when it is a JSON OBJECT that is empty or has the one
+    member `objFuncVal` holding a number or null; "anything else" - not JSON, an array (also `[1.5]`, which serde alone
+    would read as the struct: defect D16), a scalar, an unknown or additional member, a member of another type - is
+    invalid output.  Stops checking when the source loses the objects-only guard. -/
+theorem C16_schema (cast : Int → F64) (d : Option J) :
+    childOutNow cast d ≠ .invalid ↔
+      (d = some (.obj .nil) ∨ ∃ v, d = some (.obj (.cons "objFuncVal" v .nil)) ∧ (v = .null ∨ (∃ i, v = .int i) ∨ ∃ f, v = .flt f)) := by
+  have hg : Generated.childResultObjectsOnly = true := by decide
+  unfold childOutNow
+  rw [hg]
+  constructor
+  · intro h
+    match d, h with
+    | some (.obj .nil), _ => exact Or.inl rfl
+    | some (.obj (.cons k v .nil)), h =>
+      right
+      simp only [childOutOf] at h
+      by_cases hk : (k == "objFuncVal") = true
+      · have hk' : k = "objFuncVal" := by simpa using hk
+        subst hk'
+        refine ⟨v, rfl, ?_⟩
+        simp only [beq_self_eq_true, if_true] at h
+        cases v <;> simp_all [memberOut]
+      · simp [hk] at h
+    | some (.obj (.cons _ _ (.cons _ _ _))), h => simp [childOutOf] at h
+    | some (.arr .nil), h => simp [childOutOf] at h
+    | some (.arr (.cons _ .nil)), h => simp [childOutOf] at h
+    | some (.arr (.cons _ (.cons _ _))), h => simp [childOutOf] at h
+    | some .null, h => simp [childOutOf] at h
+    | some (.bool _), h => simp [childOutOf] at h
+    | some (.int _), h => simp [childOutOf] at h
+    | some (.flt _), h => simp [childOutOf] at h
+    | some (.str _), h => simp [childOutOf] at h
+    | none, h => simp [childOutOf] at h
+  · rintro (rfl | ⟨v, rfl, hv⟩)
+    · simp [childOutOf]
+    · rcases hv with rfl | ⟨i, rfl⟩ | ⟨f, rfl⟩ <;> simp [childOutOf, memberOut]
+
+/-- the value of an accepted result is the number written (an integer literal read as its `f64`) -/
+theorem C16_schema_value (cast : Int → F64) (d : Option J) (x : F64) :
+    childOutNow cast d = .value x ↔
+      ((∃ i, d = some (.obj (.cons "objFuncVal" (.int i) .nil)) ∧ x = cast i) ∨ d = some (.obj (.cons "objFuncVal" (.flt x) .nil))) := by
+  have hg : Generated.childResultObjectsOnly = true := by decide
+  unfold childOutNow
+  rw [hg]
+  constructor
+  · intro h
+    match d, h with
+    | some (.obj .nil), h => simp [childOutOf] at h
+    | some (.obj (.cons k v .nil)), h =>
+      simp only [childOutOf] at h
+      by_cases hk : (k == "objFuncVal") = true
+      · have hk' : k = "objFuncVal" := by simpa using hk
+        subst hk'
+        simp only [beq_self_eq_true, if_true] at h
+        cases v <;> simp_all [memberOut]
+        all_goals (first | exact h.symm | skip)
+      · simp [hk] at h
+    | some (.obj (.cons _ _ (.cons _ _ _))), h => simp [childOutOf] at h
+    | some (.arr .nil), h => simp [childOutOf] at h
+    | some (.arr (.cons _ .nil)), h => simp [childOutOf] at h
+    | some (.arr (.cons _ (.cons _ _))), h => simp [childOutOf] at h
+    | some .null, h => simp [childOutOf] at h
+    | some (.bool _), h => simp [childOutOf] at h
+    | some (.int _), h => simp [childOutOf] at h
+    | some (.flt _), h => simp [childOutOf] at h
+    | some (.str _), h => simp [childOutOf] at h
+    | none, h => simp [childOutOf] at h
+  · rintro (⟨i, rfl, rfl⟩ | rfl) <;> simp [childOutOf, memberOut]
+
+/-- D16 stated outright: no array is a result - and without the guard `[1.5]` would be one -/
+theorem C16_schema_array (cast : Int → F64) (l : JList) : childOutNow cast (some (.arr l)) = .invalid := by
+  have hg : Generated.childResultObjectsOnly = true := by decide
+  unfold childOutNow
+  rw [hg]
+  match l with
+  | .nil => rfl
+  | .cons _ .nil => rfl
+  | .cons _ (.cons _ _) => rfl
+example : childOutOf false (fun _ => .fin 0) (some (.arr (.cons (.flt (.fin 7)) .nil))) = .value (.fin 7) := by decide
+example : childOutNow (fun _ => .fin 0) (some (.obj (.cons "objFuncVal" (.flt (.fin 7)) .nil))) = .value (.fin 7) ∧
+          childOutNow (fun _ => .fin 0) (some (.obj (.cons "objFuncVal" (.flt (.fin 7)) (.cons "extra" .null .nil)))) = .invalid ∧
+          childOutNow (fun _ => .fin 0) (some (.obj (.cons "objFuncVal" (.str "0.25") .nil))) = .invalid ∧
+          childOutNow (fun _ => .fin 0) (some (.obj .nil)) = .null ∧ childOutNow (fun _ => .fin 0) none = .invalid := by decide
 
 end Cambrian.Props
